@@ -334,7 +334,11 @@ func (e *Ex) expr(v ssa.Value, d int) string {
 		for _, a := range callArgs(x) {
 			args = append(args, e.expr(a, d+1))
 		}
-		return "call<" + calleeName(x) + ">(" + strings.Join(args, ",") + ")"
+		cn := calleeName(x)
+		if cn == "dynamic" {
+			cn = "dyn " + e.expr(x.Call.Value, d+1)
+		}
+		return "call<" + cn + ">(" + strings.Join(args, ",") + ")"
 	case *ssa.MakeSlice:
 		return "makeslice<" + types.TypeString(x.Type(), shortQual) + ">(" + e.expr(x.Len, d+1) + ")"
 	case *ssa.MakeMap:
